@@ -286,4 +286,31 @@ theorem runs_iters : ∀ (l : List CItem), okItems l = true → adjTextI l = fal
         rw [e]; simp only [List.length_cons]; omega
 end
 
+theorem sp_lt : P.isSpace '<' = false := by decide
+
+theorem comment_fails_nil : Runs env (.nt N.comment) [] .fail := by
+  apply Runs.nt_fail_of env_comment
+  unfold Prod.comment
+  exact Runs.seq_fail (RunsSeq.fail_head (Runs.tag_fail rfl))
+
+theorem pi_fails_nil : Runs env (.nt N.pi) [] .fail := by
+  apply Runs.nt_fail_of env_pi
+  unfold Prod.pi
+  exact Runs.seq_fail (RunsSeq.fail_head (Runs.tag_fail rfl))
+
+theorem comment_fails_nonlt {c : Char} (r : Str) (hc : c ≠ '<') : Runs env (.nt N.comment) (c :: r) .fail := by
+  have e0 : [Char.ofNat 60, Char.ofNat 33, Char.ofNat 45, Char.ofNat 45] = ['<', '!', '-', '-'] := rfl
+  apply Runs.nt_fail_of env_comment
+  unfold Prod.comment
+  rw [e0]
+  exact Runs.seq_fail (RunsSeq.fail_head (Runs.tag_fail (strip_cons_ne _ _ (Ne.symm hc))))
+
+theorem pi_fails_nonlt {c : Char} (r : Str) (hc : c ≠ '<') : Runs env (.nt N.pi) (c :: r) .fail := by
+  have e0 : [Char.ofNat 60, Char.ofNat 63] = ['<', '?'] := rfl
+  apply Runs.nt_fail_of env_pi
+  unfold Prod.pi
+  rw [e0]
+  exact Runs.seq_fail (RunsSeq.fail_head (Runs.tag_fail (strip_cons_ne _ _ (Ne.symm hc))))
+
+
 end XmlRs.Lex
